@@ -316,6 +316,11 @@ fn run(ctx: &RunCtx) -> Report {
                     rawnet.with_peer(i, |p| p.ip_vote = Some(wrong));
                 }
             }
+            // a reachable node may have its public IP configured (it still has to confirm the address)
+            if situation == 0 && rng.chance(1, 3) {
+                spec.public_ip = Some(spec.ip);
+                report.probe("adaptive_with_configured_public_ip", 1);
+            }
             let switch_at = rng.range(60, 700) * SEC;
             let wrong_later = SocketAddrV4::new(pub_ip(&mut rng), 6881);
             let explicit_server = rng.chance(1, 6);
@@ -332,6 +337,24 @@ fn run(ctx: &RunCtx) -> Report {
                     // a lookup whose answers carry the new votes
                     sim.find_node(node, [0x44; 20]);
                 });
+            }
+            // somebody else on the IP the peers report (another host behind that address, another port)
+            // pings the node now and then: that is not the node's own ping coming back
+            if situation == 2 || situation == 3 {
+                let voted_ip = if situation == 2 { rawnet.with_peer(0, |p| p.ip_vote.map(|a| *a.ip())) } else { Some(*wrong_later.ip()) };
+                if let Some(ip) = voted_ip {
+                    let neighbour = SocketAddrV4::new(ip, 7000 + rng.below(1000) as u16);
+                    let _ = sim.add_raw(neighbour, None);
+                    let node_addr = sim.node_addr(node);
+                    for _ in 0..rng.usize(1, 6) {
+                        let at = sim.now() + rng.range(1, minutes * 60) * SEC;
+                        let nid = rng.id();
+                        sim.at(at, move |sim| {
+                            sim.raw_send(neighbour, node_addr, krpc::query(&krpc::tid_bytes(77), "ping", krpc::ping_args(&nid), &krpc::MsgOpts::default()));
+                        });
+                    }
+                    report.probe("pings_from_another_port_of_the_voted_ip", 1);
+                }
             }
             // a few lookups along the way
             for _ in 0..rng.usize(0, 5) {
